@@ -166,11 +166,13 @@ type docSet struct {
 	docs     [2][]interface{}
 	pristine [2][]interface{}
 	modes    []int
+	// nCore: documents [0,nCore) are the node-bounded and wide documents; member documents follow
+	nCore int
 }
 
 func newDocSet(spec gen.DocSpec, modes []int) *docSet {
-	base := append(gen.Docs(spec), gen.WideDocs()...)
-	ds := &docSet{modes: modes}
+	base := append(append(gen.Docs(spec), gen.WideDocs()...), gen.MemberDocs()...)
+	ds := &docSet{modes: modes, nCore: len(base) - len(gen.MemberDocs())}
 	for _, d := range base {
 		ds.text = append(ds.text, gen.JSON(d))
 	}
@@ -272,6 +274,8 @@ func astOf(cs map[string]interface{}) *gen.Path {
 func (j *productJob) RunUnit(i int, c *run.Ctx) {
 	u := j.units[i]
 	paths := u.Paths()
+	// the model state is advanced along the steps all paths of the unit share
+	fullPrefix := append(append([]gen.Step{}, u.L.Fixed...), u.Prefix...)
 	// parse every path of the unit once
 	cases := make([]*pathCase, 0, len(paths))
 	for _, p := range paths {
@@ -310,8 +314,12 @@ func (j *productJob) RunUnit(i int, c *run.Ctx) {
 	if u.L.Modes != nil {
 		modes = u.L.Modes
 	}
+	nDocs := j.ds.n()
+	if u.L.CoreDocs && j.ds.nCore > 0 && j.ds.nCore < nDocs {
+		nDocs = j.ds.nCore
+	}
 	for _, m := range modes {
-		for di := 0; di < j.ds.n(); di++ {
+		for di := 0; di < nDocs; di++ {
 			c.Tick()
 			doc := j.ds.docs[m][di]
 			var st *spec.Stepper
@@ -320,9 +328,9 @@ func (j *productJob) RunUnit(i int, c *run.Ctx) {
 			if j.needModel {
 				st = spec.NewStepper(doc, j.env.Model)
 				pre = spec.Start(doc)
-				for k := range u.Prefix {
+				for k := range fullPrefix {
 					var us bool
-					pre, us = st.Step(pre, &u.Prefix[k])
+					pre, us = st.Step(pre, &fullPrefix[k])
 					preUnspec = preUnspec || us
 					c.Transitions++
 				}
@@ -332,7 +340,7 @@ func (j *productJob) RunUnit(i int, c *run.Ctx) {
 				var out spec.Outcome
 				if j.needModel {
 					j.env.ResetLogs()
-					if len(pc.p.Steps) > len(u.Prefix) {
+					if len(pc.p.Steps) > len(fullPrefix) {
 						s2, us := st.Step(pre, &pc.p.Steps[len(pc.p.Steps)-1])
 						out = st.Finish(s2, pc.p)
 						out.Unspec = out.Unspec || us || preUnspec
@@ -359,8 +367,8 @@ func (j *productJob) RunUnit(i int, c *run.Ctx) {
 					if j.needModel {
 						st = spec.NewStepper(doc, j.env.Model)
 						pre = spec.Start(doc)
-						for k := range u.Prefix {
-							pre, _ = st.Step(pre, &u.Prefix[k])
+						for k := range fullPrefix {
+							pre, _ = st.Step(pre, &fullPrefix[k])
 						}
 					}
 				}
@@ -397,13 +405,16 @@ func stdLadders(tier string) []gen.Ladder {
 	if tier == "thorough" {
 		return []gen.Ladder{
 			{Alpha: gen.SigmaFull(), Depth: 3, Funcs: gen.FuncSuffixes(), FuncDepth: 2},
-			{Alpha: gen.SigmaMid(), Depth: 4, MinPrefix: 3},
-			{Alpha: gen.SigmaSmall(), Depth: 5, MinPrefix: 4},
+			{Alpha: gen.SigmaMid(), Depth: 4, MinPrefix: 3, CoreDocs: true},
+			{Alpha: gen.SigmaSmall(), Depth: 5, MinPrefix: 4, CoreDocs: true},
+			{Alpha: gen.AtomFilters(true), Depth: 1, Fixed: []gen.Step{gen.Name("c")}, Funcs: [][]string{{"g"}}, FuncDepth: 1},
 		}
 	}
 	return []gen.Ladder{
 		{Alpha: gen.SigmaFull(), Depth: 2, Funcs: gen.FuncSuffixes(), FuncDepth: 2},
-		{Alpha: gen.SigmaMid(), Depth: 4, MinPrefix: 2, Modes: []int{modeFloat}},
+		{Alpha: gen.SigmaMid(), Depth: 4, MinPrefix: 2, Modes: []int{modeFloat}, CoreDocs: true},
+		// every filter atom (and pairwise combinations) applied to the member documents
+		{Alpha: gen.AtomFilters(true), Depth: 1, Fixed: []gen.Step{gen.Name("c")}},
 	}
 }
 
